@@ -248,11 +248,12 @@ theorem C03.exactly_once_after_teardown_nonvacuous :
   decide
 
 /-- **Frame.**  A step changes only the components in its footprint (the writer it is aimed at;
-for a node loop its in- and out-side writers; for a teardown action the endpoints it closes):
+for a node loop its in- and out-side writers; for an answer of a sink's reader the writer of the
+oldest request in that reader's queue; for a teardown action the endpoints it closes):
 every other writer – its machine, pump and requester – is left exactly as it was, under either
 exit rule. -/
 theorem C03.frame (rule : Pump.Rule) (t : Topo) (s : Sys) (st : Teardown.Step) (x : WId)
-    (hx : x ∉ footprint t st) : (Teardown.step rule t s st).1.comp x = s.comp x := by
+    (hx : x ∉ footprint t s st) : (Teardown.step rule t s st).1.comp x = s.comp x := by
   cases st with
   | prim w c =>
     simp only [footprint, List.mem_singleton] at hx
@@ -260,6 +261,7 @@ theorem C03.frame (rule : Pump.Rule) (t : Topo) (s : Sys) (st : Teardown.Step) (
   | fwd w r => exact (step_evolves rule t s (.fwd w r) trivial).2 x hx
   | bwd wo => exact (step_evolves rule t s (.bwd wo) trivial).2 x hx
   | fwdEnd w r => exact (step_evolves rule t s (.fwdEnd w r) trivial).2 x hx
+  | sinkAnswer k a => exact (step_evolves rule t s (.sinkAnswer k a) trivial).2 x hx
   | down td => exact (step_evolves rule t s (.down td) trivial).2 x hx
 
 /-- Hence unaffected requesters keep the C01 guarantees: after any system history the writer
@@ -278,8 +280,8 @@ theorem C03.frame_c01 (t : Topo) (h : List Teardown.Step) (hs : RunNoSteal h) (w
 
 /-- Non-vacuity of `C03.frame`: closing an out-port leaves the writer of another path as it was. -/
 theorem C03.frame_nonvacuous :
-    (1 : WId) ∉ footprint { outPorts := [[0, 2]] } (.down (.outPortClose 0)) ∧
-    footprint { outPorts := [[0, 2]] } (.down (.outPortClose 0)) = [0, 2] := by
+    (1 : WId) ∉ footprint { outPorts := [[0, 2]] } {} (.down (.outPortClose 0)) ∧
+    footprint { outPorts := [[0, 2]] } {} (.down (.outPortClose 0)) = [0, 2] := by
   decide
 
 /-! ## Liveness (measure argument under an explicit fairness assumption) -/
@@ -426,7 +428,7 @@ theorem C03.teardown_releases_upstream_awaits_partial (t : Topo) (h : List Teard
     · rcases h1 st hst with rfl | rfl <;> trivial
   have hu0 : Upstream ({} : Sys) wi r := by
     unfold Upstream OwedEq; intro _; rfl
-  obtain ⟨hu, hb⟩ := upstream_run t wi r wo hl hne (h ++ sched) {} (fun _ => backed_init) hf' hu0
+  obtain ⟨hu, hb⟩ := upstream_run t wi r wo hl hne (h ++ sched) {} (fun _ => backed_init) (by intro k e he; cases he) hf' hu0
   rw [run_append] at hu hb
   refine ⟨sched, h1, h2, h3, ?_, hb wi⟩
   intro hcl
@@ -450,3 +452,122 @@ theorem C03.teardown_releases_upstream_awaits_partial_nonvacuous :
   intro st hst
   simp only [List.mem_cons, List.not_mem_nil, or_false] at hst
   rcases hst with rfl | rfl | rfl | rfl | rfl | rfl | rfl | rfl | rfl | rfl | rfl <;> simp [stepNoForeign]
+
+/-! ## Fan-in: several writers on one reader -/
+
+namespace Uniflow.TeardownProofs
+
+theorem closeW_deliv (m : W) : (Writer.step m .closeW).2.deliv = [] := by
+  simp only [Writer.step, stepWith]; split <;> rfl
+
+/-- `Writer.Close` leaves the queues of the readers it is linked to alone. -/
+theorem closeW_queue (rule : Pump.Rule) (t : Topo) (s : Sys) (w : WId) :
+    (applyPrim rule t s w (.w .closeW)).1.queue = s.queue := by
+  simp only [applyPrim, applyC, closeW_deliv, deliverQ, setComp]
+
+def isWriterClose : Close → Bool
+  | .writer _ => true
+  | .reader _ _ => false
+
+theorem writerCloses_queue (rule : Pump.Rule) (t : Topo) (s : Sys) (cl : List Close)
+    (h : ∀ c ∈ cl, isWriterClose c = true) : (applyCloses rule t s cl).queue = s.queue := by
+  induction cl generalizing s with
+  | nil => rfl
+  | cons c rest ih =>
+    simp only [applyCloses]
+    rw [ih _ (fun c' hc' => h c' (by simp [hc']))]
+    cases c with
+    | writer w => exact closeW_queue rule t s w
+    | reader w r => have := h (.reader w r) (by simp); simp [isWriterClose] at this
+
+end Uniflow.TeardownProofs
+
+/-- **Unaffected requesters get their own answers** (fan-in).  One Go reader may be linked from
+several writers; its queue `Reader.writers` (`Sys.queue`) decides which writer the owner's next
+answer goes to.  A teardown action that closes writers only (`Writer.Close`, `OutPort.Close`; the
+writer closes of a node close or process exit) never touches those queues.  Hence (i) every
+writer outside the action's footprint is left as it was, (ii) every reader's queue is left as it
+was, and so (iii) the next answer of any reader's owner goes to the same request as it would have
+without the teardown and has exactly the same effect on every writer outside the footprint: a
+teardown action on writer `w` never changes what any other writer's requester receives – not
+even when that requester's request is queued behind one of `w` on a shared reader. -/
+theorem C03.unaffected_correct (rule : Pump.Rule) (t : Topo) (s : Sys) (td : Teardown)
+    (hw : ∀ c ∈ closes t td, isWriterClose c = true) :
+    (∀ x, x ∉ (closes t td).map closeTarget → (Teardown.step rule t s (.down td)).1.comp x = s.comp x) ∧
+    (Teardown.step rule t s (.down td)).1.queue = s.queue ∧
+    (∀ k a x, x ∉ (closes t td).map closeTarget →
+      (Teardown.step rule t (Teardown.step rule t s (.down td)).1 (.sinkAnswer k a)).1.comp x =
+        (Teardown.step rule t s (.sinkAnswer k a)).1.comp x) := by
+  have hframe : ∀ x, x ∉ (closes t td).map closeTarget → (Teardown.step rule t s (.down td)).1.comp x = s.comp x :=
+    fun x hx => (step_evolves rule t s (.down td) trivial).2 x hx
+  have hq : (Teardown.step rule t s (.down td)).1.queue = s.queue := writerCloses_queue rule t s _ hw
+  refine ⟨hframe, hq, ?_⟩
+  intro k a x hx
+  simp only [Teardown.step] at hframe hq ⊢
+  rw [hq]
+  cases hqk : s.queue k with
+  | nil => exact hframe x hx
+  | cons e rest =>
+    obtain ⟨w, r⟩ := e
+    simp only
+    rw [applyPrim_comp, applyPrim_comp]
+    by_cases hxw : x = w
+    · subst hxw
+      simp only [if_true]
+      rw [hframe x hx]
+    · simp only [hxw, if_false]
+      exact hframe x hx
+
+/-- Non-vacuity, on the situation of the seeded change c03c: writers 0 and 1 are linked to the same
+reader (sink 0); writer 0's request is handed to it first, writer 1's is queued behind it; writer
+0 is closed; the owner answers both requests in order (70 to the first, 80 to the second).  The
+first answer goes to the closed writer and is discarded, the requester of writer 1 receives 80 –
+its own answer. -/
+theorem C03.unaffected_correct_nonvacuous :
+    let t : Topo := { listener := fun _ _ => .sink 0 }
+    let h : List Teardown.Step := [.prim 0 (.w (.link 0)), .prim 1 (.w (.link 0)), .prim 0 (.w (.write 7)),
+      .prim 1 (.w (.write 8)), .down (.writerClose 0), .sinkAnswer 0 (.val 70), .sinkAnswer 0 (.val 80),
+      .prim 1 .recv, .prim 0 .recv]
+    (Teardown.run .discard t {} (h.take 4)).queue 0 = [(0, 0), (1, 0)] ∧
+    ((Teardown.run .discard t {} h).comp 1).got = [.got (.val 80)] ∧
+    ((Teardown.run .discard t {} h).comp 0).got = [.got Resp.dropped] := by
+  decide
+
+/-! ## The forward-end `Tracer.Drop` cannot lose a later request's answer -/
+
+/-- **A node's forward loop ending is final.**  When a node's in-reader `r` (of writer `w`) is
+closed its forward loop ends and drops what it still awaits downstream (`fwdEnd`: `Tracer.Drop` on
+its writers) although the out-writer may stay open and the downstream may still answer those
+requests later.  Such a late answer could only do harm if the same node, for the same process,
+wrote a new request to that out-writer afterwards (the tracer matches responses to the pending
+writes of a writer first-in first-out).  It cannot: from the state `fwdEnd` leaves – reader
+closed, nothing handed to it and not taken, nothing taken and not answered – every step of every
+history keeps all three: a closed reader stays closed (no operation reopens it; the in-port keeps
+the closed reader for the process, `InPort.Close` forgets it but also drops the node's
+listeners, a process exit makes `Open` return the closed reader), a closed reader accepts no
+write, so nothing is ever handed to it, so the forward loop – if one were running – would take
+nothing, so nothing is written downstream on its behalf.  A late answer finds `reads` empty and
+is discarded (`bwd`: nothing to fill). -/
+theorem C03.forward_end_is_final (t : Topo) (w : WId) (r : RId) (wo : WId) (hl : t.listener w r = .node wo)
+    (s : Sys) (hc : (s.comp w).w.closed r = true) (h : List Teardown.Step) :
+    let s' := Teardown.run .discard t (Teardown.step .discard t s (.fwdEnd w r)).1 h
+    (s'.comp w).w.closed r = true ∧ s'.inbox w r = [] ∧ s'.reads w r = [] := by
+  obtain ⟨h1, h2⟩ := fwdEnd_seals t w r wo hl s hc
+  obtain ⟨h3, h4⟩ := sealed_run t w r wo hl h _ h1 h2
+  exact ⟨h3.1, h3.2, h4⟩
+
+/-- Non-vacuity: a request in flight behind a node, the node's in-reader closed, the forward loop
+ends; the requester writes again (not accepted: count 0), the downstream answers late on the
+still open out-writer, the backward loop runs: the node holds nothing and passes nothing up; the
+requester has received exactly the `dropped` of the reader close. -/
+theorem C03.forward_end_is_final_nonvacuous :
+    let t : Topo := { consumer := fun w => if w = 1 then .node 0 0 else .requester,
+                      listener := fun w _ => if w = 0 then .node 1 else .sink 0 }
+    let h : List Teardown.Step := [.prim 0 (.w (.link 0)), .prim 1 (.w (.link 0)), .prim 0 (.w (.write 7)), .fwd 0 0,
+      .down (.readerClose 0 0), .fwdEnd 0 0, .prim 0 (.w (.deliverDrop 0)), .prim 0 .recv,
+      .prim 0 (.w (.write 8)), .fwd 0 0, .sinkAnswer 0 (.val 70), .bwd 1]
+    ((Teardown.run .discard t {} h).comp 1).w.done = false ∧
+    (Teardown.run .discard t {} h).reads 0 0 = [] ∧
+    ((Teardown.run .discard t {} h).comp 0).accepted = 1 ∧
+    ((Teardown.run .discard t {} h).comp 0).got = [.got Resp.dropped] := by
+  decide
